@@ -95,12 +95,22 @@ PROPS = {
     "C07": dict(
         level="proof",
         specs=["specs.c07_memory"],
-        bounded=[],
+        bounded=["bounded.c07_memory"],
         trusted=["transport (C06) and the machine's memory semantics are assumed for the deductive clauses"],
     ),
     "C03": dict(
         level="exploration",
         specs=["specs.c03_route"],
-        bounded=[],
+        bounded=["bounded.c03_route"],
+    ),
+    "C02": dict(
+        level="exploration",
+        specs=[],
+        bounded=["bounded.c02_place"],
+    ),
+    "C06": dict(
+        level="exploration",
+        specs=[],
+        bounded=["bounded.c06_bursts"],
     ),
 }
